@@ -85,6 +85,7 @@ func init() {
 			ruleG2(r)
 			ruleA1(r)
 			ruleC09A2(r)
+			ruleC09A3(r)
 		},
 	})
 }
@@ -415,5 +416,138 @@ func ruleC09A2(r *Run) {
 	r.Stat("stores_through_field_pointers", n)
 	if n == 0 {
 		r.Check("stores through field pointers", true, "", "", "none in the analysed packages")
+	}
+}
+
+// ruleC09A3: a critical section does not hand out the guarded container itself. A function that takes the lock of a
+// guarded map or slice field and returns that map or slice (or an inner map or slice looked up in it) lets the caller
+// read it after the lock is gone while the owner keeps writing it; what leaves the section is a copy.
+func ruleC09A3(r *Run) {
+	r.Begin("A3", "guarded containers do not leave their critical section: a function that acquires a lock itself returns no map or slice that is (or was looked up in) a field of the guarded-by table — it returns a copy made under the lock", 1)
+	p := r.P
+	guarded := map[string]bool{}
+	for _, g := range guardTable {
+		guarded[g.Owner+"."+g.Field] = true
+	}
+	// origin: (guarded field, nesting level) a value was loaded from: level 0 is the field, level 1 an element of it, …
+	var origin func(v ssa.Value, depth int) (string, int)
+	origin = func(v ssa.Value, depth int) (string, int) {
+		if depth > 8 {
+			return "", 0
+		}
+		v = canonVal(v)
+		switch x := v.(type) {
+		case *ssa.Phi:
+			for _, e := range x.Edges {
+				if o, l := origin(e, depth+1); o != "" {
+					return o, l
+				}
+			}
+		case *ssa.Extract:
+			return origin(x.Tuple, depth+1)
+		case *ssa.Lookup:
+			if o, l := origin(x.X, depth+1); o != "" {
+				return o, l + 1
+			}
+		case *ssa.Slice:
+			return origin(x.X, depth+1)
+		case *ssa.ChangeType:
+			return origin(x.X, depth+1)
+		case *ssa.UnOp:
+			if x.Op == token.MUL {
+				if fk := fieldKeyOfAddr(x.X); guarded[fk] {
+					return fk, 0
+				}
+				if ia, isIA := x.X.(*ssa.IndexAddr); isIA {
+					if o, l := origin(ia.X, depth+1); o != "" {
+						return o, l + 1
+					}
+				}
+			}
+		}
+		return "", 0
+	}
+	// mutated[field][level]: the owner writes into the container at that level after it was stored (insert, delete,
+	// element store, append, or re-assignment of the field); an element that is only ever stored whole and read back is
+	// a value handed through, not shared storage
+	mutated := map[string]map[int]bool{}
+	mark := func(v ssa.Value) {
+		if o, l := origin(v, 0); o != "" {
+			if mutated[o] == nil {
+				mutated[o] = map[int]bool{}
+			}
+			mutated[o][l] = true
+		}
+	}
+	for _, fn := range p.Funcs {
+		if fn.Blocks == nil || !p.Analysed(fn) {
+			continue
+		}
+		allInstrs(fn, func(ins ssa.Instruction) {
+			switch x := ins.(type) {
+			case *ssa.MapUpdate:
+				mark(x.Map)
+			case *ssa.Store:
+				if fk := fieldKeyOfAddr(x.Addr); guarded[fk] {
+					if mutated[fk] == nil {
+						mutated[fk] = map[int]bool{}
+					}
+					mutated[fk][0] = true
+				}
+				if ia, isIA := x.Addr.(*ssa.IndexAddr); isIA {
+					mark(ia.X)
+				}
+			case *ssa.Call:
+				if b, isB := x.Call.Value.(*ssa.Builtin); isB && (b.Name() == "delete" || b.Name() == "append" || b.Name() == "clear") && len(x.Call.Args) > 0 {
+					mark(x.Call.Args[0])
+				}
+			}
+		})
+	}
+	n := 0
+	for _, fn := range p.Funcs {
+		if fn.Blocks == nil || !p.Analysed(fn) {
+			continue
+		}
+		locks := false
+		allInstrs(fn, func(ins ssa.Instruction) {
+			if cc := instrCall(ins); cc != nil {
+				if _, isDefer := ins.(*ssa.Defer); isDefer {
+					return
+				}
+				if op, _ := classifyLockCall(cc); op == opLock || op == opRLock {
+					locks = true
+				}
+			}
+		})
+		if !locks {
+			continue
+		}
+		name := fnName(fn)
+		k := 0
+		allInstrs(fn, func(ins ssa.Instruction) {
+			ret, ok := ins.(*ssa.Return)
+			if !ok {
+				return
+			}
+			for i, res := range retResults(ret) {
+				switch res.Type().Underlying().(type) {
+				case *types.Map, *types.Slice:
+				default:
+					continue
+				}
+				if c, isK := res.(*ssa.Const); isK && c.IsNil() {
+					continue
+				}
+				k++
+				n++
+				o, l := origin(res, 0)
+				shared := o != "" && mutated[o][l]
+				r.Check(fmt.Sprintf("%s result#%d return#%d is not the guarded container", name, i, k), !shared, posOf(p, ret), name, fmt.Sprintf("the returned map or slice is the guarded field %s at nesting level %d, a container the owner goes on writing: the caller uses it after the lock was released", o, l))
+			}
+		})
+	}
+	if n == 0 {
+		r.Check("container-returning critical sections", true, "", "", "no locking function returns a map or slice")
 	}
 }
